@@ -135,6 +135,32 @@ CHECKS.update({
              "combinations completely, larger ones as Hamming balls of radius 2 / 3 around three base assignments; one spelling per literal class.",
         technique=S2, design="6/C03"),
 })
+CHECKS.update({
+    "C07": dict(
+        text="Scope templates (declarations, uses as assignment target and as expression, if/else, while, for, gate, def, switch nested to a "
+             "bound) with every identifier a symbolic character from a pool that contains built-in names (U, pi-sign) are parsed by the real "
+             "parser and analysed by ALL of syntax_to_semantic from MIR. A stack-of-scopes reference model written from the property text "
+             "gives, as z3 terms over the name characters, for each binding whether it succeeds and its id and for each use the symbol it must "
+             "resolve to. On every path the engine's concrete answers (Ok(id) / AlreadyBound / MissingBinding, Undefined type, exactly one "
+             "UndefVarError / RedeclarationError at the identifier, symbol names in the final table, only the global scope open) are PROVED "
+             "equal to the model under the path condition, i.e. for every naming the path represents.",
+        note="Trusted: reference scoping model (vf/h_c07.py Oracle), rowan tree / hashbrown / string models, MIR dump, z3; engine validated "
+             "differentially against native (vf/s2validate) and each counterexample is confirmed by engine==native on the concrete text. "
+             "Bounds: <= 3 (quick) / 4 (thorough) items per program, nesting <= 2 / 3, one-character names from a pool of 3 / 4.",
+        technique=S2, design="6/C07"),
+    "C09": dict(
+        text="Declarations whose width / register-length literal is a string of 1-11 SYMBOLIC decimal digits (all values up to 10^11 > 2^33), "
+             "for every scalar type, const / non-const, qubit registers, input/output, inside every scope kind, and const-identifier "
+             "designators (`const int n = V; int[n] x;`, negative, non-const) are analysed from MIR. Proved for every digit string of a path: "
+             "no diagnostic => the symbol table records exactly the written constructor, const-ness and width (absent when not written); a "
+             "value above 2^32-1, a negative or a non-constant designator => a diagnostic. Gate (0-4 angle parameters x 1-4 qubits) and "
+             "subroutine signatures and parameter types are compared structurally; SymbolTable::gates() after `include \"stdgates.inc\"` "
+             "is compared with the standard-library table written from the OpenQASM 3 specification.",
+        note="Trusted: u128::from_str_radix model (exact bit-vector arithmetic over the digit characters), tree / map / string models, MIR dump, "
+             "z3; counterexamples are confirmed by engine==native on the concrete text. Bounds: decimal widths of <= 11 (quick) / 12 digits; "
+             "other radices are C10's; array declarations are unsupported by the analyser (C03).",
+        technique=S2, design="6/C09"),
+})
 
 NOT_YET = {}
 
